@@ -261,7 +261,7 @@ func ruleCCOnce(c *Ctx) {
 	selOK := false
 	for i, e := range ccPhi.Edges {
 		f, _, _ := fieldAddr(e)
-		if f == nil || f.Name() != "audioCC" {
+		if f == nil || theProgram.baseFieldName(f) != "audioCC" {
 			continue
 		}
 		pred := ccPhi.Block().Preds[i]
@@ -315,7 +315,7 @@ func ruleCCOnce(c *Ctx) {
 			if st.Addr == ssa.Value(ccPhi) {
 				otherCCStore = true
 			}
-			if f, _, ok := fieldAddr(st.Addr); ok && (f.Name() == "videoCC" || f.Name() == "audioCC") {
+			if f, _, ok := fieldAddr(st.Addr); ok && (theProgram.baseFieldName(f) == "videoCC" || theProgram.baseFieldName(f) == "audioCC") {
 				otherCCStore = true
 			}
 		}
@@ -415,7 +415,7 @@ func ruleTSPacketizerFields(c *Ctx) {
 		}
 		if st := get("Payload"); st != nil {
 			f, base, ok := fieldLoad(st.Val)
-			c.Decide(ok && f.Name() == "Payload" && origin(base) == frame, key("payload"), p.InstrPos(st), "payload is the source frame's", "TS frame payload is not the source frame's payload")
+			c.Decide(ok && theProgram.baseFieldName(f) == "Payload" && origin(base) == frame, key("payload"), p.InstrPos(st), "payload is the source frame's", "TS frame payload is not the source frame's payload")
 		}
 		if st := get("Pid"); st != nil {
 			k, ok := evalInt(st.Val)
